@@ -64,17 +64,7 @@ class AsymmetricStepSolver(ScaledStepSolver):
 
             assert curr_data.shape == curr_cols.shape
 
-            (col_nnz,) = curr_data.shape
-
-            k = np.searchsorted(curr_cols, j)
-
             curr_data[:] = 0.0
-            curr_data[k] = 1.0
-            curr_cols[k] = j
-
-            assert (curr_cols[:-1] <= curr_cols[1:]).all()
-            assert (0 <= curr_cols).all()
-            assert (curr_cols < n + m).all()
 
     def compute_deriv(self, active_set: np.ndarray) -> sp.sparse.spmatrix:
         lamb = 1.0 / self.dt
@@ -101,6 +91,13 @@ class AsymmetricStepSolver(ScaledStepSolver):
         )
 
         self.overwrite_active_rows(deriv)
+
+        # Diagonal entries of active rows are added explicitly, they
+        # can be structurally missing (if Hessian entry and lamb cancel out)
+        active_diag = np.zeros((n + m,), dtype=self.params.dtype)
+        active_diag[:n][active_set] = 1.0
+
+        deriv = (deriv + sp.sparse.diags([active_diag], [0])).tocsr()
 
         assert deriv.dtype == self.params.dtype
 
